@@ -329,6 +329,11 @@ func asStashBatches(rng *rand.Rand) (*asScenario, []asStep) {
 	for i := 0; i < k; i++ {
 		steps = append(steps, asStep{A: "tell", X: "a", Op: "stash"})
 	}
+	if rng.Intn(3) == 0 {
+		// the actor is restarted (or resumed) with a full stash: the stash belongs to the actor, not to the incarnation
+		sc.Cfg.Decision["t"] = []string{"restart", "grestart", "resume"}[rng.Intn(3)]
+		steps = append(steps, asStep{A: "settle"}, asStep{A: "tell", X: "a", Op: "fail"})
+	}
 	steps = append(steps, asStep{A: "settle"}, asStep{A: "tell", X: "a", Op: "unstash", Arg: fmt.Sprint(1 + rng.Intn(k))}, asStep{A: "settle"})
 	for i := 0; i < rng.Intn(3); i++ {
 		steps = append(steps, asStep{A: "tell", X: "a", Op: "stash"})
